@@ -146,6 +146,7 @@ fn c15_small_ssp_encode() {
 
 //@ id: small_ssp_decode
 //@ prop: C15
+//@ tier: thorough
 //@ functions: insim/src/insim/small.rs <SmallType as BinRead>::read_options; insim/src/insim/small.rs <SmallType as BinWrite>::write_options
 //@ statement: IS_SMALL sub-type 1 (Ssp), for ALL 2^32 value fields: decoding gives value*10 ms and re-encoding gives the identical 5 bytes
 //@ covers: 1
